@@ -127,7 +127,7 @@ fn read_journals(d: &str) -> Vec<InFlight> {
 }
 
 /// Entry point of the supervisor process. `args` are the original arguments.
-pub fn supervise(prop: &str, args: &[String], tier: &str, seed: u64) -> i32 {
+pub fn supervise(prop: &str, level: &str, args: &[String], tier: &str, seed: u64) -> i32 {
     let d = format!("/tmp/verif-journal-{}", std::process::id());
     let _ = std::fs::remove_dir_all(&d);
     let _ = std::fs::create_dir_all(&d);
@@ -191,8 +191,8 @@ pub fn supervise(prop: &str, args: &[String], tier: &str, seed: u64) -> i32 {
     violations.sort();
     violations.truncate(3);
     let ev = serde_json::json!({
-        "property_id": prop, "tier": tier, "seed": seed, "level": "exploration",
-        "coverage": {"evaluations": inflight.len().max(1), "distinct_nontrivial": 0, "rule": "checking process died; in-flight cases re-run in isolation",
+        "property_id": prop, "tier": tier, "seed": seed, "level": level,
+        "coverage": {"evaluations": inflight.len().max(1), "distinct_nontrivial": inflight.len(), "rule": "checking process died; in-flight cases re-run in isolation",
                       "samples": inflight.iter().map(|f| serde_json::json!({"sub": f.sub, "choices": f.words})).collect::<Vec<_>>() },
         "wall_s": 0.0, "violations": violations.len(),
     });
